@@ -1,4 +1,7 @@
-"""C17 - point-set alignment (svdtf / svdstf), ICP and EPnP return the optimal / true transformation."""
+"""C17 - point-set alignment (svdtf / svdstf), ICP and EPnP return the optimal / true transformation.
+
+Batch items are independent problems (own cloud, pose, perturbation, noise; rank-0/1/2 batches and operands that broadcast
+against each other), so that mixing of batch items is visible."""
 import math
 import numpy as np
 import torch
@@ -13,42 +16,65 @@ from .. import tu, gen
 PROPERTY = "C17"
 RULE = (
     "align: Hypothesis draws fn in {svdtf, svdstf, svdstf(with_scale=False)}, dtype f64/f32, N in 3..200 (quick: "
-    "mostly <= 40), batch shape (), (1,), (2,), (3,) and per batch item a class generic / planar / collinear / "
+    "mostly <= 40), batch shape (), (1,), (2,), (3,), (2,2), (2,3) (thorough also (3,2), (1,3), (2,1)); with a batch the operands "
+    "either share it or ONE source / ONE target (no batch dimensions, or size-1 dimensions) broadcasts against per-item "
+    "targets / sources; per batch item a class generic / planar / collinear / "
     "duplicated (2..N-1 distinct points) / thin-plane / needle (squeezed by 10^-15..10^-0.5) cloud (anisotropy 0.2..1, spread 1e-2..1e2, centroid offset 0..10 spreads, "
     "axis-aligned or randomly oriented), a true rotation over all of SO(3) (regimes incl. angle = pi, w~0, v~0), "
-    "translation 0..100 spreads, scale 0.1..10, Gaussian noise sigma in {0} U [1e-6,0.5] (absolute log-uniform, or 0.3..5 x "
+    "translation 0..100 spreads, scale 0.1..10 (svdtf: rigid data; svdstf(with_scale=False): also scaled data, judged against "
+    "the best RIGID transform), Gaussian noise sigma in {0} U [1e-6,0.5] (absolute log-uniform, or 0.3..5 x "
     "the target spread capped at 0.5 = reflection-prone); the cloud / noise are "
     "np.random.RandomState(seed) expansions.  Oracle: Horn's quaternion optimum (largest eigenvector of the 4x4 N "
-    "matrix, numpy float64; similarity: same R, s = sum y_c.(R x_c)/sum|x_c|^2, t = ybar - s R xbar; selftest against "
-    "the SVD/Umeyama form and random rotations).  Asserted: SE3/Sim3 LieTensor of shape batch+(7|8,), finite, "
-    "| |q|-1 | <= 16 eps, scale > 0 (|s-1| <= 16 eps without scale), SSE(returned) <= SSE(opt)(1+1e-9) + "
-    "4 eps N (s X + Y)^2 (X, Y = max |x_i|, |y_i|) -- a validity predicate, so non-unique optima pass; for sigma = 0 "
+    "matrix, numpy float64, of the inputs as rounded to the dtype; similarity: same R, s = sum y_c.(R x_c)/sum|x_c|^2, t = ybar - s R xbar; selftest against "
+    "the SVD/Umeyama form and random rotations).  Asserted: SE3/Sim3 LieTensor of the broadcast batch shape +(7|8,), finite, "
+    "| |q|-1 | <= 16 eps, scale > 0 (|s-1| <= 16 eps without scale), SSE(returned) <= SSE(opt)(1+1e-9) + tol, both SSEs evaluated on "
+    "the centred sets, tol = min(4 eps N (s X + Y)^2 (X, Y = max |x_i|, |y_i|), backward-error bound of an SVD alignment on the "
+    "centred data: N d^2 + N v^2 + min(4 sqrt3 s |dM|, 16 s |dM|^2/(l1-l2)) [+ scale term; + 16 eps |Sxx-Syy+SSE| for the unit scale "
+    "of with_scale=False] + float64 evaluation error, d = ((N-1)/2+16) eps "
+    "(s X + Y), v = 24 eps (s rx + ry), |dM| = ((N-1)/2+16) eps sum|x_c||y_c| + 3N(..eps)^2 X Y, see opt_tolerance) -- everything "
+    "but the degenerate-optimum term is second order in eps, so for noisy data in float32 a rotation error of ~1e-2 rad is visible even "
+    "100 spreads from the origin (evidence: theta_detectable_wellcond); still a validity predicate, so non-unique optima pass; for sigma = 0 (and unscaled data) "
     "max_i |y_i - T x_i| <= 32 [eps L + eps sX Y rmax N/sig1 + min(eps sX Y rmax N/(sig2+sig3), 2 s dperp)] "
     "(sig_k scatter eigenvalues of the source, dperp = max distance from its principal line: rotation about the axis "
-    "of a collinear set is free, a thin set is ill-conditioned in proportion).  icp: jittered-grid clouds (N 20..200, "
-    "min separation >= extent/(2 g)), volume or planar, target = T (source + 0..20 further grid points) (optionally permuted), init = D^-1 T (ctor "
-    "or forward argument) or None with T = D, D = rotation <= 5 deg x level, shift <= 5 % extent x level, level in "
-    "{1, 6, 36}; default or explicit ReduceToBason stepper; asserted: brute-force mean squared closest-point distance "
-    "after <= before (1+1e-9) + 64 eps L^2, and -- whenever the initial nearest-neighbour matching is the true "
-    "correspondence with margin (d_true^2 <= 0.64 d_second^2) -- |R-R_true|, |t-t_true|/(1+L) <= 1e-6 (f64) / 2e-4 "
-    "(f32).  epnp (float64): N 6..100 points with spread in all three directions (anisotropy >= 0.25), camera-frame "
-    "centroid depth rho x rmax (rho 1.1..16, all depths >= 1), lateral offset <= 0.4 depth, fx 1..2000, fy/fx 0.8..1.25, "
-    "principal point in [-500,1000]^2, refine on/off, intrinsics by ctor / forward, batch () or (2,); pixels from the "
-    "harness's own numpy projection (pp.point2pixel must agree to 1e-9 f); asserted: reprojection <= 1e-8 f F, "
+    "of a collinear set is free, a thin set is ill-conditioned in proportion).  icp: jittered-grid clouds (N 3..200, "
+    "min separation >= extent/(2 g)), volume or planar, target = T (source + 0..20 further grid points) (optionally permuted) "
+    "+ Gaussian noise of 0 or 1e-3..0.3 grid cells, batch shape () .. (2,2), (1,3) (thorough (2,3), (3,1)) with per batch item its own cloud, "
+    "pose and perturbation, or one source / one target shared by all items (no or size-1 batch dimensions), init = D^-1 T (ctor "
+    "or forward argument; per item, or one init without batch dimensions) or None with T = D, D = rotation <= 5 deg x level, shift <= 5 % extent x level, level in "
+    "{1, 6, 36}; default or explicit ReduceToBason stepper; asserted (exact and noisy targets): brute-force mean squared closest-point distance "
+    "after <= before (1+1e-9) + 64 eps L^2, and -- for exact targets, whenever the initial nearest-neighbour matching is the true "
+    "correspondence with margin (d_true^2 <= 0.64 d_second^2) -- |R-R_true|, |t-t_true|/(1+L) <= 3 (4 k_max+16) eps cond, cond = "
+    "L sum|x_c|/(sig2+sig3) (k_max = step limit of the stepper; rounding only: the first SVD step is exact and independent of the "
+    "stopping tolerance), for N >= 20 capped by 1e-6 (f64) / 2e-4 "
+    "(f32).  epnp (float64, 1/4 float32): N 6..100 points with spread in all three directions (anisotropy >= 0.25), camera-frame "
+    "centroid depth rho x rmax (rho 1.1..16, so all depths > 0; in 1/3 of the cases additionally all depths >= 1), lateral offset <= 0.4 depth, fx 1..2000, fy/fx 0.8..1.25, "
+    "principal point in [-500,1000]^2, refine on/off, intrinsics by ctor / forward, batch () .. (2,2), (1,2) with per item its own points, "
+    "pose, distance (and focal length x 0.5/1/2 when the intrinsics are batched); pixels from the "
+    "harness's own numpy projection (pp.point2pixel must agree to 1e-9 f in float64); asserted: reprojection <= 1e-8 f F, "
     "|R-R_true| <= 1e-6 F, |t-t_true| <= 1e-6 (1+|t|) F with F = max(1, (kappa/1000)^2), kappa = s_1/s_11 of the "
     "row-normalised 2N x 12 DLT matrix of the instance (EPnP's eig(M^T M) squares the conditioning; F = 1 for ~95 % of "
-    "the cases).  Non-trivial: align = planar / collinear / thin / 3-point / noisy / "
-    "angle > 2 rad; icp = non-zero D and (planar or permuted or explicit init or level > 1); epnp = kappa <= 3000 and (angle > 2 rad or "
+    "the cases); float32: reprojection <= 80 eps kappa^2 + 16 pr, pose <= 160 eps kappa^2 + 16 kappa pr (pr = eps (1 + max|u|/f): "
+    "the rounding of the pixels) for kappa <= 60, not asserted beyond.  Non-trivial: align = planar / collinear / thin / 3-point / noisy / scaled-data rigid fit / "
+    "angle > 2 rad; icp = non-zero D and (planar or permuted or explicit init or level > 1 or noisy); epnp = kappa <= 3000 and (angle > 2 rad or "
     "N <= 8 or rho > 8 or anisotropy < 0.4).  distinct = (sub, fn/config, dtype, class, N bucket, noise / level / rho "
-    "bucket, angle bucket, batch).")
+    "bucket, angle bucket, batch shape, broadcast mode).")
 ASSUMPTIONS = [
-    "source points are not all identical; source and target have the same batch shape and N",
+    "source points are not all identical (the quantifier lists generic / planar / collinear / duplicated clouds; a single repeated point "
+    "leaves the whole rotation free and makes the similarity scale 0/0 -- outside the statement); source and target have the same N; "
+    "their batch shapes are equal or one of them has no / size-1 batch dimensions (torch broadcasting, as the '...' of the docstrings)",
     "similarity: true scale in 0.1..10; a ValueError('not full rank') of svdstf is accepted only when the optimal scale is < 1e-4",
-    "ICP recovery is asserted only when the first nearest-neighbour matching is the true correspondence (sufficient condition for "
-    "'within the convergence basin'); otherwise only monotonicity",
-    "EPnP: float64, non-coplanar points, depth/size ratio <= 16, rectified intrinsics; 'non-degenerate' is quantified by the "
-    "DLT condition number kappa of the instance: design tolerances for kappa <= 1000, scaled by (kappa/1000)^2 beyond",
+    "ICP recovery is asserted only for exact targets and when the first nearest-neighbour matching is the true correspondence (sufficient condition for "
+    "'within the convergence basin'); otherwise (and for noisy targets) only monotonicity: result not worse than the initial transform; "
+    "the initial transform has the batch shape of the clouds or no batch dimensions (an init with MORE batch dimensions than the clouds is not documented and not generated)",
+    "EPnP: non-coplanar points, depth/size ratio <= 16, all depths > 0, rectified intrinsics (batched per item or one matrix); 'non-degenerate' is quantified by the "
+    "DLT condition number kappa of the instance: design tolerances for kappa <= 1000, scaled by (kappa/1000)^2 beyond; float32 only asserted for kappa <= 60",
     "numpy eigh/svd (float64) trusted for the 4x4 / 3x3 reference problems",
+    "svdstf on a rank-2 batch (a,b), a != b raised RuntimeError in mat2Sim3 (scale compared with zeros of another shape): found by this "
+    "module, repaired in /repo (known_findings F21); such batches are asserted like any other",
+    "EPnP with ONE un-batched point set against batched pixels / intrinsics with more batch dimensions than the points raises "
+    "RuntimeError('stack expects each tensor to be equal size') in _compute_nullv: the docstring gives the shapes (..., N, 3) / (..., N, 2) / "
+    "(..., 3, 3) but promises no broadcasting between them, and the refusal is loud: such cases are generated, counted under the label "
+    "epnp:broadcast_refused(loud) and not reported; a WRONG pose for such operands would be reported",
 ]
 
 QI = [0.0, 0.0, 0.0, 1.0]
@@ -121,15 +147,127 @@ def make_cloud(cls, N, seed, spread, an, oriented, cmul, mfrac, thick=1e-6):
     return (P @ Q.T + c) * spread
 
 
-def item_data(it, N, fn, dtype):
+CLOUD_KEYS = ("cls", "seed", "spread", "an", "oriented", "cmul", "mfrac", "thick")
+BCS = ("same", "src_shared", "tgt_shared")
+
+
+def _data_scale(it, fn):
+    """scale of the generated correspondences: svdtf always sees rigid data; svdstf(with_scale=False) also gets SCALED
+    data (item scale != 1): the best RIGID transform is then the oracle and nothing is asserted about exactness"""
+    return 1.0 if fn == "svdtf" else it["s"]
+
+
+def item_data(it, N, fn, dtype, b=0):
     X = _cast(make_cloud(it["cls"], N, it["seed"], it["spread"], it["an"], it["oriented"], it["cmul"], it["mfrac"],
                          it.get("thick", 1e-6)), dtype)
     Rt = _qR(it["q"])
-    s = it["s"] if fn == "svdstf" else 1.0
+    s = _data_scale(it, fn)
     t = np.asarray(it["tdir"]) * it["tmul"] * it["spread"]
-    rs = np.random.RandomState((it["seed"] + 7919) % (2 ** 31))
+    rs = np.random.RandomState((it["seed"] + 7919 + 104729 * b) % (2 ** 31))
     Y = s * (X @ Rt.T) + t + it["sigma"] * rs.randn(N, 3)
     return X, _cast(Y, dtype), s, Rt, t
+
+
+def _prod(shape):
+    n = 1
+    for d in shape:
+        n *= int(d)
+    return n
+
+
+def _bshape(case):
+    """batch shape of a case (older cases carry only the integer `nb`: 0 = no batch dimension)"""
+    if "bshape" in case:
+        return tuple(int(d) for d in case["bshape"])
+    return (case["nb"],) if case.get("nb") else ()
+
+
+def _shared_shape(bshape, keep1):
+    """batch shape of the operand that is shared by all batch items: no batch dimensions, or size-1 dimensions"""
+    return (1,) * len(bshape) if keep1 else ()
+
+
+def align_data(case):
+    """-> list over the batch items (row-major over the batch shape) of (X, Y, s_true, R_true, t_true, item).
+    bc = "same": every item has its own cloud; "src_shared": ONE source cloud (item 0's) and per item its own
+    transform / noise -> per-item targets (the source is passed without batch dimensions or with size-1 dimensions and
+    broadcasts); "tgt_shared": ONE target (item 0's) and per item a source x = R^T (y - t) / s + noise/s."""
+    fn, dtype, N = case["fn"], case["dtype"], case["N"]
+    items, bc = case["items"], case.get("bc", "same")
+    out = []
+    for b, it in enumerate(items):
+        if bc == "same":
+            out.append(item_data(it, N, fn, dtype) + (it,))
+            continue
+        it2 = dict(it, **{k: items[0][k] for k in CLOUD_KEYS if k in items[0]})
+        if bc == "src_shared" or b == 0:
+            out.append(item_data(it2, N, fn, dtype, b) + (it2,))
+        else:
+            Y = out[0][1]
+            Rt, s = _qR(it2["q"]), _data_scale(it2, fn)
+            t = np.asarray(it2["tdir"]) * it2["tmul"] * it2["spread"]
+            rs = np.random.RandomState((it2["seed"] + 7919 + 104729 * b) % (2 ** 31))
+            X = _cast(((Y - t) @ Rt) / s + (it2["sigma"] / s) * rs.randn(N, 3), dtype)
+            out.append((X, Y, s, Rt, t, it2))
+    return out
+
+
+def opt_tolerance(X, Y, ref, mode, eps, unit_scale_dev=0.0):
+    """Bound on  SSE(returned) - SSE(optimum)  for an SVD alignment carried out in arithmetic of precision eps on the
+    (already rounded) inputs X, Y, written from a backward-error argument on the CENTRED data.
+
+    For any (s', R', t'):  SSE = SSE_c(s', R') + N |t' - (ybar - s' R' xbar)|^2  EXACTLY (the centred residuals sum to zero),
+    with SSE_c = Syy - 2 s' tr(R'^T M) + s'^2 Sxx, M = sum y_c x_c^T.  Hence, for the returned (rounded) s', R', t':
+      * translation: t' = fl(ybar' - s R xbar') with centroids summed in working precision (|error| <= (N-1)/2 eps max|x|,
+        sequential-summation worst case) and q, t, s stored rounded: |t' - t*| <= d = cN eps (s Xm + Ym), cN = (N-1)/2 + 16;
+        contributes N d^2 -- second order, although d carries the distance from the origin;
+      * rotation: the SVD is backward stable, so the computed rotation maximises tr(R^T M') for M' = M + dM,
+        |dM|_F <= cN eps sum|x_c,i||y_c,i| + 3 N (cN eps)^2 Xm Ym  (rounding of the centred points and of the N-term sums;
+        a common centroid error e_x, e_y only enters as N e_y e_x^T).  Rigorously tr(R'^T M) >= tr(R_opt^T M) - 2 sqrt(3)|dM|_F,
+        i.e. SSE_c grows by at most B1 = 4 sqrt(3) s |dM|_F; when dM is small against the stiffness (l1 - l2)/2 =
+        sigma_2 + d sigma_3 of the optimum, perturbation theory gives rotation errors theta_k = dm_k/(sigma_i+sigma_j) and a
+        loss  s sum theta_k^2 (sigma_i+sigma_j) <= 4 s |dM|_F^2/(l1 - l2); used with a factor 4 and only for |dM|_F <= (l1-l2)/8.
+        Rounding the rotation to a stored quaternion (angle c eps) is second order as well (the gradient vanishes at the
+        maximiser): <= N (24 eps (s rx + ry))^2;
+      * scale (similarity): s' = tr(D Sigma')/Sxx' misses the best scale for R' by at most (sqrt(3)|dM|_F + cN eps s Sxx)/Sxx,
+        costing that squared times Sxx;
+      * svdstf(with_scale=False) returns s' = 1 + delta, |delta| <= unit_scale_dev (asserted separately), and the optimum is
+        constrained to s = 1 where the SSE has the slope 2 (Sxx - tr(R^T M)) = Sxx - Syy + SSE_c:  |delta| |Sxx - Syy + SSE_c| +
+        delta^2 Sxx (zero for data a rigid transform fits exactly);
+      * evaluation of both SSEs by the harness (float64, centred): per-point v64 = 32 eps64 (s rx + ry): 2 sqrt(SSE N) v64 + N v64^2.
+    Returns (tolerance, dict of the terms)."""
+    X = np.asarray(X, dtype=np.float64)
+    Y = np.asarray(Y, dtype=np.float64)
+    N = len(X)
+    Xc, Yc = X - X.mean(0), Y - Y.mean(0)
+    rx, ry = np.sqrt((Xc * Xc).sum(-1)), np.sqrt((Yc * Yc).sum(-1))
+    Xm, Ym = float(np.sqrt((X * X).sum(-1)).max()), float(np.sqrt((Y * Y).sum(-1)).max())
+    s = ref["s"] if mode == "sim" else 1.0
+    cN = (N - 1) / 2.0 + 16.0
+    d = cN * eps * (s * Xm + Ym)
+    rr = s * float(rx.max()) + float(ry.max())
+    v, v64 = 24.0 * eps * rr, 32.0 * tu.EPS["float64"] * rr
+    Sxy, Sxx, Syy = float((rx * ry).sum()), float((rx * rx).sum()), float((ry * ry).sum())
+    dM = cN * eps * Sxy + 3.0 * N * (cN * eps) ** 2 * Xm * Ym
+    B1 = 4.0 * math.sqrt(3.0) * s * dM
+    gap = ref["l1"] - ref["l2"]
+    Bq = 16.0 * s * dM * dM / gap if (gap > 0 and dM <= gap / 8.0) else float("inf")
+    B = min(B1, Bq)
+    ts = 0.0
+    if mode == "sim" and Sxx > 0:
+        ts = (math.sqrt(3.0) * dM + cN * eps * s * Sxx) ** 2 / Sxx
+    us = unit_scale_dev * abs(Sxx - Syy + ref["sse_c"]) + unit_scale_dev ** 2 * Sxx
+    sse = max(ref["sse_c"], 0.0)
+    ev = 2.0 * math.sqrt(sse * N) * v64 + N * v64 ** 2
+    tr = N * d * d + N * v * v
+    return ev + tr + B + ts + us, {"eval": ev, "transl+round": tr, "rot": B, "quadratic": Bq < B1, "scale": ts, "unit_scale": us}
+
+
+ALIGN_SHAPES = {
+    # (batch shape, weight); rank-2 batches and broadcasting get a small share of the quick budget
+    "quick": ([],) * 6 + ([1],) + ([2],) * 2 + ([3],) + ([2, 2],) + ([2, 3],),
+    "thorough": ([],) * 4 + ([1],) + ([2],) * 2 + ([3],) * 2 + ([2, 2],) + ([2, 3],) + ([3, 2],) + ([1, 3],) + ([2, 1],),
+}
 
 
 class Align(Sub):
@@ -165,19 +303,25 @@ class Align(Sub):
 
         @st.composite
         def s(draw):
-            nb = draw(st.sampled_from((0, 0, 0, 1, 2, 3)))
+            bshape = list(draw(st.sampled_from(ALIGN_SHAPES[tier])))
             if tier == "quick":
                 N = draw(st.one_of(st.integers(3, 6), st.integers(3, 40), st.integers(3, 40), st.integers(41, 200)))
             else:
                 N = draw(st.one_of(st.integers(3, 6), st.integers(3, 40), st.integers(3, 200)))
+            # operands of different batch shapes (broadcast): only when there is a batch
+            bc = draw(st.sampled_from(("same", "same", "src_shared", "tgt_shared"))) if bshape else "same"
             return {"fn": draw(st.sampled_from(("svdtf", "svdtf", "svdstf", "svdstf", "svdstf_noscale"))),
-                    "dtype": draw(st.sampled_from(gen.DTYPES)), "N": N, "nb": nb,
-                    "items": [draw(item()) for _ in range(max(1, nb))]}
+                    "dtype": draw(st.sampled_from(gen.DTYPES)), "N": N, "bshape": bshape, "bc": bc,
+                    "keep1": draw(st.booleans()) if bc != "same" else False,
+                    "items": [draw(item()) for _ in range(_prod(bshape))]}
         return s()
 
     def valid(self, case):
         try:
-            if case["N"] < 3 or len(case["items"]) != max(1, case["nb"]):
+            bshape = _bshape(case)
+            if case["N"] < 3 or len(case["items"]) != _prod(bshape) or len(bshape) > 2 or min(bshape + (1,)) < 1:
+                return False
+            if case.get("bc", "same") not in BCS or (case.get("bc", "same") != "same" and not bshape):
                 return False
             for it in case["items"]:
                 if not (np.linalg.norm(it["q"]) > 1e-3 and 0.09 <= it["s"] <= 10.5 and 0 <= it["sigma"] <= 0.5
@@ -191,20 +335,24 @@ class Align(Sub):
             return False
 
     def oracle(self, case, rec):
-        fn, dtype, N, nb = case["fn"], case["dtype"], case["N"], case["nb"]
+        fn, dtype, N = case["fn"], case["dtype"], case["N"]
+        bshape, bc, keep1 = _bshape(case), case.get("bc", "same"), bool(case.get("keep1"))
+        nitems = _prod(bshape)
         eps = tu.EPS[dtype]
-        data = [item_data(it, N, fn, dtype) for it in case["items"]]
-        Xs = np.stack([d[0] for d in data], 0)
-        Ys = np.stack([d[1] for d in data], 0)
-        if nb == 0:
-            src, tgt = tu.tens(Xs[0], dtype), tu.tens(Ys[0], dtype)
-        else:
-            src, tgt = tu.tens(Xs, dtype), tu.tens(Ys, dtype)
+        data = align_data(case)
+        Xs = np.stack([d[0] for d in data], 0).reshape(bshape + (N, 3))
+        Ys = np.stack([d[1] for d in data], 0).reshape(bshape + (N, 3))
+        if bc == "src_shared":
+            Xs = data[0][0].reshape(_shared_shape(bshape, keep1) + (N, 3))
+        elif bc == "tgt_shared":
+            Ys = data[0][1].reshape(_shared_shape(bshape, keep1) + (N, 3))
+        src, tgt = tu.tens(Xs, dtype), tu.tens(Ys, dtype)
         src0, tgt0 = src.clone(), tgt.clone()
         mode = "rigid" if fn in ("svdtf", "svdstf_noscale") else "sim"
         refs = [A.optimum(d[0], d[1], mode) for d in data]
+        sbatch = "batch" + str(bshape).replace(" ", "")
         try:
-            with rec.sut(fn, allow=(ValueError,) if fn != "svdtf" else ()):
+            with rec.sut(fn, allow=(ValueError, RuntimeError) if fn != "svdtf" else ()):
                 if fn == "svdtf":
                     T = pp.svdtf(src, tgt)
                 elif fn == "svdstf":
@@ -219,21 +367,27 @@ class Align(Sub):
             rec.fail("raises:ValueError:%s:%s" % (fn, dtype), "%s raised ValueError: %s (optimal scales %s)"
                      % (fn, str(e)[:200], [r["s"] for r in refs]))
             return
+        except RuntimeError as e:
+            rec.fail("raises:RuntimeError:%s:%s" % (fn, "rank%d" % len(bshape)),
+                     "%s raised RuntimeError for source %s, target %s: %s" % (fn, tuple(src.shape), tuple(tgt.shape), str(e)[:300]))
+            return
         rec.check(torch.equal(src, src0) and torch.equal(tgt, tgt0), "mutates_input", "%s changed its inputs" % fn)
         want_lt, dim = (pp.SE3_type, 7) if fn == "svdtf" else (pp.Sim3_type, 8)
         if not rec.check(isinstance(T, pp.LieTensor) and T.ltype == want_lt, "type:" + fn,
                          "%s returned %s / %s" % (fn, type(T).__name__, getattr(T, "ltype", None))):
             return
-        shape = ((nb,) if nb else ()) + (dim,)
-        if not rec.check(tuple(T.shape) == shape, "shape:" + fn, "%s: result shape %s, expected %s for inputs %s"
-                         % (fn, tuple(T.shape), shape, tuple(src.shape))):
+        shape = bshape + (dim,)
+        if not rec.check(tuple(T.shape) == shape, "shape:" + fn, "%s: result shape %s, expected %s for inputs %s, %s"
+                         % (fn, tuple(T.shape), shape, tuple(src.shape), tuple(tgt.shape))):
             return
         rec.check(T.dtype == tu.TD[dtype], "dtype:" + fn, "%s: result dtype %s for %s inputs" % (fn, T.dtype, dtype))
-        Tn = tu.npy(T).reshape(max(1, nb), dim)
+        Tn = tu.npy(T).reshape(nitems, dim)
         if not rec.check(bool(np.all(np.isfinite(Tn))), "nonfinite:%s:%s" % (fn, dtype), "%s returned %s" % (fn, Tn.tolist())):
             return
-        rec.label(fn, dtype, "batch%d" % nb)
-        for b, (it, (X, Y, s_true, R_true, t_true), ref) in enumerate(zip(case["items"], data, refs)):
+        rec.label(fn, dtype, sbatch, "rank%d" % len(bshape))
+        if bshape:
+            rec.label("bc:" + bc + (":keep1" if keep1 else ""))
+        for b, ((X, Y, s_true, R_true, t_true, it), ref) in enumerate(zip(data, refs)):
             t_ret, q_ret = Tn[b, :3], Tn[b, 3:7]
             s_ret = float(Tn[b, 7]) if dim == 8 else 1.0
             cls, sigma = it["cls"], it["sigma"]
@@ -243,16 +397,19 @@ class Align(Sub):
             km = A.kabsch_umeyama(X, Y, mode)
             reflective = km["refl"] and km["sv"][2] > 1e-6 * km["sv"][0]
             noisy = sigma > 0
-            rec.label("cls:" + cls, "noisy" if noisy else "exact", "N=3" if N == 3 else ("N<=8" if N <= 8 else ("N<=40" if N <= 40 else "N>40")))
+            # svdstf(with_scale=False) on scaled data: the best rigid fit of a similar copy (never exact)
+            misfit = fn == "svdstf_noscale" and s_true != 1.0
+            rec.label("cls:" + cls, "noisy" if noisy else ("rigid_fit_of_scaled_data" if misfit else "exact"),
+                      "N=3" if N == 3 else ("N<=8" if N <= 8 else ("N<=40" if N <= 40 else "N>40")))
             if reflective:
                 rec.label("reflective_optimum")
             if ref["gap"] < 1e-9:
                 rec.label("nonunique_optimum")
             if ang > 2.0:
                 rec.label("angle>2")
-            if cls in ("planar", "collinear", "thinplane", "needle") or N == 3 or noisy or ang > 2.0:
+            if cls in ("planar", "collinear", "thinplane", "needle") or N == 3 or noisy or misfit or ang > 2.0:
                 nlev = 0 if not noisy else (1 if sigma < 1e-3 * it["spread"] else (2 if sigma < 0.1 * it["spread"] else 3))
-                rec.nt(("align", fn, dtype, cls, _nbucket(N), nlev, reflective, _abucket(ang), nb))
+                rec.nt(("align", fn, dtype, cls, _nbucket(N), nlev, misfit, reflective, _abucket(ang), bshape, bc))
             # ---- proper transform
             qn = float(np.linalg.norm(q_ret))
             rec.notes["r_qnorm"] = max(rec.notes.get("r_qnorm", 0), abs(qn - 1) / (16 * eps))
@@ -267,21 +424,40 @@ class Align(Sub):
                     rec.check(abs(s_ret - 1) <= 16 * eps, "noscale_scale:" + tag,
                               "svdstf(with_scale=False) item %d: scale %r != 1" % (b, s_ret))
             R_ret = _qR(q_ret)
-            # ---- optimality (validity predicate)
-            sse_ret = A.sse(X, Y, s_ret, R_ret, t_ret)
+            # ---- optimality (validity predicate): SSE of the returned transform against the float64 Horn optimum of the
+            # SAME (rounded) inputs.  Tolerance = min(coarse bound 4 eps N (s X + Y)^2 with the distances from the origin,
+            # backward-error bound on the centred data (opt_tolerance)): the second one is what makes a float32 rotation
+            # error of 1e-2 rad visible for a cloud 100 spreads away from the origin.
+            sse_ret = A.sse_centred(X, Y, s_ret, R_ret, t_ret)
             Xm = float(np.sqrt((X * X).sum(-1)).max())
             Ym = float(np.sqrt((Y * Y).sum(-1)).max())
             L = ref["s"] * Xm + Ym
-            tol = 4 * eps * N * L * L
-            exc = sse_ret - ref["sse"] * (1 + 1e-9)
+            tol_coarse = 4 * eps * N * L * L
+            if fn == "svdstf_noscale":
+                # the unit scale is returned within 16 eps (asserted above); on data that no rigid transform fits the SSE has a
+                # slope in s: 2 |s - 1| |sum r_i . R x_c,i| <= 32 eps sqrt(SSE Sxx)
+                Xc = X - X.mean(0)
+                tol_coarse += 32 * eps * math.sqrt(max(ref["sse_c"], 0.0) * float((Xc * Xc).sum()))
+            tol_fine, terms = opt_tolerance(X, Y, ref, mode, eps, 16 * eps if fn == "svdstf_noscale" else 0.0)
+            tol = min(tol_coarse, tol_fine)
+            exc = sse_ret - ref["sse_c"] * (1 + 1e-9)
             rec.notes["r_sse"] = max(rec.notes.get("r_sse", 0), exc / tol)
+            rec.notes["r_sse_coarse"] = max(rec.notes.get("r_sse_coarse", 0), exc / tol_coarse)
+            if noisy or misfit:
+                rec.label("opt_tol:quadratic" if terms["quadratic"] else "opt_tol:first_order")
+                if terms["quadratic"] and ref["gap"] > 0.1:
+                    # rotation error (rad) about the softest axis that would exceed the tolerance: loss = s theta^2 (l1 - l2)/2
+                    th = math.sqrt(2 * tol / (max(ref["s"] if mode == "sim" else 1.0, 1e-300) * (ref["l1"] - ref["l2"])))
+                    kth = "theta_detectable_wellcond:" + dtype
+                    rec.notes[kth] = max(rec.notes.get(kth, 0), th)
+                    rec.notes[kth + ":coarse_bound_alone"] = max(rec.notes.get(kth + ":coarse_bound_alone", 0), th * math.sqrt(tol_coarse / tol))
             rec.check(exc <= tol, "optimal:%s:%s" % (tag, cls if N > 3 else "N3"),
-                      lambda: "%s item %d (%s, N=%d, sigma=%.3g, angle=%.3f): SSE of the returned transform %.6g > SSE of "
-                              "the Horn optimum %.6g (+ tol %.3g); returned s=%.6g q=%s t=%s, reference s=%.6g"
-                              % (fn, b, cls, N, sigma, ang, sse_ret, ref["sse"], tol, s_ret, q_ret.tolist(),
-                                 t_ret.tolist(), ref["s"]))
+                      lambda: "%s item %d (%s, N=%d, sigma=%.3g, angle=%.3f, batch %s %s): SSE of the returned transform %.9g > SSE of "
+                              "the Horn optimum %.9g (+ tol %.3g = min(coarse %.3g, centred %.3g %s)); returned s=%.6g q=%s t=%s, "
+                              "reference s=%.6g" % (fn, b, cls, N, sigma, ang, bshape, bc, sse_ret, ref["sse_c"], tol, tol_coarse,
+                                                    tol_fine, terms, s_ret, q_ret.tolist(), t_ret.tolist(), ref["s"]))
             # ---- exact correspondences are reproduced
-            if not noisy:
+            if not noisy and not misfit:
                 stt = A.scatter_stats(X)
                 sig = stt["sig"]
                 E = eps * (s_true * Xm) * Ym
@@ -294,16 +470,25 @@ class Align(Sub):
                 rec.notes["r_exact"] = max(rec.notes.get("r_exact", 0), res / tolr)
                 rec.notes["cond_exact"] = max(rec.notes.get("cond_exact", 0), tolr / (32 * eps * (s_true * Xm + Ym)))
                 rec.check(res <= tolr, "exact:%s:%s" % (tag, cls if N > 3 else "N3"),
-                          lambda: "%s item %d (%s, N=%d, angle=%.3f): exact correspondences y = s R x + t not reproduced: "
+                          lambda: "%s item %d (%s, N=%d, angle=%.3f, batch %s %s): exact correspondences y = s R x + t not reproduced: "
                                   "max residual %.3g > %.3g; returned s=%.6g q=%s t=%s, true s=%.6g t=%s"
-                                  % (fn, b, cls, N, ang, res, tolr, s_ret, q_ret.tolist(), t_ret.tolist(), s_true,
+                                  % (fn, b, cls, N, ang, bshape, bc, res, tolr, s_ret, q_ret.tolist(), t_ret.tolist(), s_true,
                                      t_true.tolist()))
 
     def simplify(self, case):
         its = case["items"]
-        if case["nb"] > 0:
+        if len(its) > 1 or _bshape(case):
             for i in range(len(its)):
-                yield dict(case, nb=0, items=[its[i]])
+                c = {k: v for k, v in case.items() if k not in ("nb", "bshape", "bc", "keep1")}
+                it = its[i]
+                if case.get("bc", "same") != "same":      # keep the shared cloud of item 0
+                    it = dict(it, **{k: its[0][k] for k in CLOUD_KEYS if k in its[0]})
+                if case.get("bc", "same") == "tgt_shared" and i > 0:
+                    continue                               # its source is derived from item 0's target: not separable
+                yield dict(c, bshape=[], bc="same", keep1=False, items=[it])
+        if case.get("bc", "same") != "same":
+            if case.get("keep1"):
+                yield dict(case, keep1=False)
         if case["N"] > 3:
             for n in sorted({3, 4, case["N"] // 2, case["N"] - 1}):
                 if 3 <= n < case["N"]:
@@ -384,89 +569,161 @@ def _q_of_R(Rm):
     return q if q[3] >= 0 else -q
 
 
+ICP_ITEM_KEYS = ("q", "tdir", "tmul", "prot", "paxis", "ptr", "ptdir")
+ICP_SHAPES = {
+    "quick": ([],) * 5 + ([1],) + ([2],) * 3 + ([3],) + ([2, 2],) + ([1, 3],),
+    "thorough": ([],) * 4 + ([1],) + ([2],) * 3 + ([3],) * 2 + ([2, 2],) + ([2, 3],) + ([1, 3],) + ([3, 1],),
+}
+
+
+def _rigid_inv(Rm, t):
+    return Rm.T, -Rm.T @ t
+
+
 class ICPSub(Sub):
     name = "icp"
     n = {"quick": 640, "thorough": 12000}
 
     def strategy(self, tier):
         @st.composite
-        def s(draw):
+        def pose(draw):
             q, _ = draw(gen.unit_quat("float64"))
             td, _ = draw(gen.direction3())
             pa, _ = draw(gen.direction3())
             pt, _ = draw(gen.direction3())
-            if tier == "quick":
-                N = draw(st.one_of(st.integers(20, 60), st.integers(20, 60), st.integers(20, 200)))
-            else:
-                N = draw(st.integers(20, 200))
-            return {"dtype": draw(st.sampled_from(("float64", "float64", "float32"))), "N": N,
-                    "nb": draw(st.sampled_from((0, 0, 1, 2))), "seed": draw(st.integers(0, 2 ** 31 - 1)),
-                    "planar": draw(st.booleans()), "extent": 10.0 ** draw(st.floats(-1.0, 1.5)),
-                    "q": q, "tdir": td, "tmul": draw(st.sampled_from((0.0, 1.0, 3.0))),
-                    "perm": draw(st.booleans()), "init": draw(st.sampled_from(("none", "ctor", "fwd"))),
-                    "level": draw(st.sampled_from((1, 1, 1, 6, 36))),
+            return {"q": q, "tdir": td, "tmul": draw(st.sampled_from((0.0, 1.0, 3.0))),
                     "prot": draw(st.one_of(st.just(0.0), st.floats(0.0, 1.0), st.floats(0.0, 1.0))), "paxis": pa,
-                    "ptr": draw(st.one_of(st.just(0.0), st.floats(0.0, 1.0), st.floats(0.0, 1.0))), "ptdir": pt,
+                    "ptr": draw(st.one_of(st.just(0.0), st.floats(0.0, 1.0), st.floats(0.0, 1.0))), "ptdir": pt}
+
+        @st.composite
+        def s(draw):
+            if tier == "quick":
+                N = draw(st.one_of(st.integers(3, 19), st.integers(20, 60), st.integers(20, 60), st.integers(20, 200)))
+            else:
+                N = draw(st.one_of(st.integers(3, 19), st.integers(3, 200), st.integers(20, 200)))
+            bshape = list(draw(st.sampled_from(ICP_SHAPES[tier])))
+            if tier == "quick" and _prod(bshape) > 2:
+                N = min(N, 60)
+            bc = draw(st.sampled_from(("same", "same", "same", "src_shared", "tgt_shared"))) if bshape else "same"
+            init = draw(st.sampled_from(("none", "ctor", "fwd")))
+            case = {"dtype": draw(st.sampled_from(("float64", "float64", "float32"))), "N": N,
+                    "bshape": bshape, "bc": bc, "keep1": draw(st.booleans()) if bc != "same" else False,
+                    "seed": draw(st.integers(0, 2 ** 31 - 1)),
+                    "planar": draw(st.booleans()), "extent": 10.0 ** draw(st.floats(-1.0, 1.5)),
+                    "perm": draw(st.booleans()), "init": init,
+                    # one initial transform without batch dimensions for all batch items
+                    "init_shared": draw(st.booleans()) if (init != "none" and bshape) else False,
+                    "level": draw(st.sampled_from((1, 1, 1, 6, 36))),
                     "stepper": draw(st.sampled_from(("default", "tight", "short"))),
                     "extra": draw(st.one_of(st.just(0), st.just(0), st.integers(1, 20))),
+                    # Gaussian noise on the target, in units of the grid cell (0 = exact rigid copy)
+                    "noise": draw(st.one_of(st.just(0.0), st.just(0.0), st.floats(-3.0, -0.5).map(lambda e: 10.0 ** e))),
                     # the same ICP object is first used for an unrelated registration with a far per-call init (result discarded)
                     "reuse": draw(st.sampled_from((False, False, True)))}
+            case.update(draw(pose()))
+            # every further batch item has its own pose and its own perturbation
+            case["items"] = [draw(pose()) for _ in range(_prod(bshape) - 1)]
+            return case
         return s()
 
     def valid(self, case):
         try:
-            return (20 <= case["N"] and np.linalg.norm(case["q"]) > 1e-3 and 0 <= case["prot"] <= 1 and 0 <= case["ptr"] <= 1
-                    and case["level"] in LEVELS and 0.05 <= case["extent"] <= 50 and 0 <= case["extra"] <= 20
-                    and all(0.99 <= np.linalg.norm(case[k]) <= 1.01 for k in ("tdir", "paxis", "ptdir")))
+            bshape = _bshape(case)
+            ok = (3 <= case["N"] and case["level"] in LEVELS and 0.05 <= case["extent"] <= 50 and 0 <= case["extra"] <= 20
+                  and 0 <= case.get("noise", 0.0) <= 0.35 and len(bshape) <= 2 and min(bshape + (1,)) >= 1
+                  and case.get("bc", "same") in BCS and (case.get("bc", "same") == "same" or bshape)
+                  and len(case.get("items", [])) in (0, _prod(bshape) - 1)
+                  and not (case.get("init_shared") and (case["init"] == "none" or not bshape)))
+            for p in [case] + list(case.get("items", [])):
+                ok = ok and (np.linalg.norm(p["q"]) > 1e-3 and 0 <= p["prot"] <= 1 and 0 <= p["ptr"] <= 1
+                             and all(0.99 <= np.linalg.norm(p[k]) <= 1.01 for k in ("tdir", "paxis", "ptdir")))
+            return bool(ok)
         except Exception:
             return False
 
     def _problem(self, case, b):
         """-> X (N,3), Y (N+extra,3) (rounded to dtype), perm, (R_true, t_true), initial (q0, t0) or None, grid size.
-        The target is the image of the source plus `extra` further points of the same jittered grid."""
+        The target is the image of the source plus `extra` further points of the same jittered grid (+ optional noise).
+        Batch item b > 0 takes its pose and perturbation from case["items"][b-1] (older cases: shared with item 0).
+        bc = "same": own cloud per item; "src_shared": one source cloud, per item target = T_b(cloud);
+        "tgt_shared": one target (the cloud itself), per item source = T_b^-1 (cloud[:N])."""
         dtype, N, M = case["dtype"], case["N"], case["N"] + case["extra"]
-        P, g = grid_cloud(M, case["seed"] + 1013 * b, case["planar"], case["extent"])
+        bc = case.get("bc", "same")
+        p = case if (b == 0 or not case.get("items")) else dict(case, **case["items"][b - 1])
+        P, g = grid_cloud(M, case["seed"] + (1013 * b if bc == "same" else 0), case["planar"], case["extent"])
         P = _cast(P, dtype)
-        X = P[:N]
         ext = case["extent"]
         lev = case["level"]
-        RD = A.rot_from_axis_angle(case["paxis"], math.radians(5.0) * lev * case["prot"])
+        RD = A.rot_from_axis_angle(p["paxis"], math.radians(5.0) * lev * p["prot"])
         # the perturbation rotates about the centroid of the (initially placed) cloud and shifts it
-        shift = np.asarray(case["ptdir"]) * 0.05 * ext * lev * case["ptr"]
-        if case["init"] == "none":
-            c = X.mean(0)
-            R_true, t_true = RD, c - RD @ c + shift
-            init = None
+        shift = np.asarray(p["ptdir"]) * 0.05 * ext * lev * p["ptr"]
+        pose_src = case if case.get("init_shared") else p       # a shared init is item 0's pose
+        if bc == "tgt_shared":
+            # T_b = D_b o I_b, D_b about the centroid of the place where the source belongs; x = T_b^-1 p
+            if case["init"] == "none":
+                R0, t0, init = np.eye(3), np.zeros(3), None
+            else:
+                q0 = _cast(_q_of_R(_qR(pose_src["q"])), dtype)
+                t0 = _cast(np.asarray(pose_src["tdir"]) * pose_src["tmul"] * ext, dtype)
+                R0, init = _qR(q0), (q0, t0)
+            c = P[:N].mean(0)
+            R_true, t_true = _compose(RD, c - RD @ c + shift, R0, t0)
+            Ri, ti = _rigid_inv(R_true, t_true)
+            X = _cast(P[:N] @ Ri.T + ti, dtype)
+            Y = P
         else:
-            R_true = _qR(case["q"])
-            t_true = np.asarray(case["tdir"]) * case["tmul"] * ext
-            # T_true = D o T0  =>  T0 = D^-1 o T_true, D about the centroid of T_true X
-            c = R_true @ X.mean(0) + t_true
-            tD = c - RD @ c + shift
-            R0, t0 = _compose(RD.T, -RD.T @ tD, R_true, t_true)
-            q0 = _cast(_q_of_R(R0), dtype)
-            t0 = _cast(t0, dtype)
-            init = (q0, t0)
-        Y = P @ R_true.T + t_true
+            X = P[:N]
+            if case["init"] == "none":
+                c = X.mean(0)
+                R_true, t_true = RD, c - RD @ c + shift
+                init = None
+            elif case.get("init_shared"):
+                # the init comes first (the same for every item): T_b = D_b o I, D_b about the centroid of I X
+                q0 = _cast(_q_of_R(_qR(pose_src["q"])), dtype)
+                t0 = _cast(np.asarray(pose_src["tdir"]) * pose_src["tmul"] * ext, dtype)
+                R0, init = _qR(q0), (q0, t0)
+                c = R0 @ X.mean(0) + t0
+                R_true, t_true = _compose(RD, c - RD @ c + shift, R0, t0)
+            else:
+                R_true = _qR(p["q"])
+                t_true = np.asarray(p["tdir"]) * p["tmul"] * ext
+                # T_true = D o T0  =>  T0 = D^-1 o T_true, D about the centroid of T_true X
+                c = R_true @ X.mean(0) + t_true
+                tD = c - RD @ c + shift
+                R0, t0 = _compose(RD.T, -RD.T @ tD, R_true, t_true)
+                q0 = _cast(_q_of_R(R0), dtype)
+                t0 = _cast(t0, dtype)
+                init = (q0, t0)
+            Y = P @ R_true.T + t_true
         if case["perm"]:
-            perm = np.random.RandomState((case["seed"] + 31 * b + 5) % (2 ** 31)).permutation(M)
+            perm = np.random.RandomState((case["seed"] + 31 * (b if bc != "tgt_shared" else 0) + 5) % (2 ** 31)).permutation(M)
         else:
             perm = np.arange(M)
-        Y = _cast(Y[perm], dtype)        # Y[j] = T p_{perm[j]}, p_i = x_i for i < N
+        noise = case.get("noise", 0.0)
+        if noise > 0:
+            nb_ = b if bc != "tgt_shared" else 0
+            Y = Y + noise * (ext / g) * np.random.RandomState((case["seed"] + 977 * nb_ + 3) % (2 ** 31)).randn(M, 3)
+        Y = _cast(Y[perm], dtype)        # Y[j] = T p_{perm[j]} (+ noise), p_i = x_i for i < N
         return X, Y, perm, (R_true, t_true), init, g
 
     def oracle(self, case, rec):
-        dtype, N, nb = case["dtype"], case["N"], case["nb"]
+        dtype, N = case["dtype"], case["N"]
+        bshape, bc, keep1 = _bshape(case), case.get("bc", "same"), bool(case.get("keep1"))
+        nitems, M = _prod(bshape), case["N"] + case["extra"]
+        noise = case.get("noise", 0.0)
         eps = tu.EPS[dtype]
-        probs = [self._problem(case, b) for b in range(max(1, nb))]
-        Xs = np.stack([p[0] for p in probs], 0)
-        Ys = np.stack([p[1] for p in probs], 0)
-        src = tu.tens(Xs if nb else Xs[0], dtype)
-        tgt = tu.tens(Ys if nb else Ys[0], dtype)
+        probs = [self._problem(case, b) for b in range(nitems)]
+        Xs = np.stack([p[0] for p in probs], 0).reshape(bshape + (N, 3))
+        Ys = np.stack([p[1] for p in probs], 0).reshape(bshape + (M, 3))
+        if bc == "src_shared":
+            Xs = probs[0][0].reshape(_shared_shape(bshape, keep1) + (N, 3))
+        elif bc == "tgt_shared":
+            Ys = probs[0][1].reshape(_shared_shape(bshape, keep1) + (M, 3))
+        src, tgt = tu.tens(Xs, dtype), tu.tens(Ys, dtype)
         init = None
         if case["init"] != "none":
             I = np.stack([np.concatenate([p[4][1], p[4][0]]) for p in probs], 0)
-            init = pp.SE3(tu.tens(I if nb else I[0], dtype))
+            init = pp.SE3(tu.tens(I[0] if case.get("init_shared") else I.reshape(bshape + (7,)), dtype))
         src0, tgt0 = src.clone(), tgt.clone()
         with rec.sut("ICP"):
             if case["stepper"] == "default":
@@ -479,9 +736,8 @@ class ICPSub(Sub):
             if case.get("reuse"):
                 # an earlier call on the same object, started from a transform far away (2.5 rad about (1,1,0)): a per-call
                 # init must not leak into later calls
-                far = pp.SE3(tu.tens([3.0, -2.0, 1.0, 0.67103, 0.67103, 0.0, 0.31532], dtype))
-                far = far.lview(1).expand(nb, 7) if nb else far
-                icp(src, tgt, init=pp.SE3(far.tensor().clone()))
+                far = tu.tens([3.0, -2.0, 1.0, 0.67103, 0.67103, 0.0, 0.31532], dtype)
+                icp(src, tgt, init=pp.SE3(far.expand(bshape + (7,)).clone()))
                 rec.label("reused_module")
             if case["init"] == "fwd":
                 T = icp(src, tgt, init=init)
@@ -491,18 +747,30 @@ class ICPSub(Sub):
         if not rec.check(isinstance(T, pp.LieTensor) and T.ltype == pp.SE3_type, "icp:type",
                          "ICP returned %s / %s" % (type(T).__name__, getattr(T, "ltype", None))):
             return
-        shape = ((nb,) if nb else ()) + (7,)
-        if not rec.check(tuple(T.shape) == shape, "icp:shape", "ICP result shape %s, expected %s" % (tuple(T.shape), shape)):
+        shape = bshape + (7,)
+        if not rec.check(tuple(T.shape) == shape, "icp:shape", "ICP result shape %s, expected %s (source %s, target %s, init %s)"
+                         % (tuple(T.shape), shape, tuple(src.shape), tuple(tgt.shape), None if init is None else tuple(init.shape))):
             return
-        Tn = tu.npy(T).reshape(max(1, nb), 7)
+        Tn = tu.npy(T).reshape(nitems, 7)
         if not rec.check(bool(np.all(np.isfinite(Tn))), "icp:nonfinite:" + dtype, "ICP returned %s" % Tn.tolist()):
             return
         lev = case["level"]
-        rec.label(dtype, "batch%d" % nb, "init:" + case["init"], "level%d" % lev, "stepper:" + case["stepper"],
+        nlev = 0 if noise == 0 else (1 if noise < 0.01 else (2 if noise < 0.1 else 3))
+        sbatch = "batch" + str(bshape).replace(" ", "")
+        rec.label(dtype, sbatch, "rank%d" % len(bshape), "init:" + case["init"], "level%d" % lev, "stepper:" + case["stepper"],
                   "planar" if case["planar"] else "volume", "perm" if case["perm"] else "ordered",
-                  "extra_target_points" if case["extra"] else "same_count")
-        zeroD = (case["prot"] == 0.0 and case["ptr"] == 0.0)
+                  "extra_target_points" if case["extra"] else "same_count",
+                  ("noise:none", "noise<1%cell", "noise<10%cell", "noise>=10%cell")[nlev],
+                  "N<20" if N < 20 else "N>=20")
+        if bshape:
+            rec.label("bc:" + bc + (":keep1" if keep1 else ""))
+        if case.get("init_shared"):
+            rec.label("init_without_batch_dims")
+        if nitems > 1 and case.get("items"):
+            rec.label("per_item_pose")
         for b, (X, Y, perm, (R_true, t_true), ini, g) in enumerate(probs):
+            p = case if (b == 0 or not case.get("items")) else case["items"][b - 1]
+            zeroD = (p["prot"] == 0.0 and p["ptr"] == 0.0)
             t_ret, q_ret = Tn[b, :3], Tn[b, 3:]
             qn = float(np.linalg.norm(q_ret))
             if not rec.check(abs(qn - 1) <= 16 * eps, "icp:unit_quat:" + dtype, "ICP item %d: |q| - 1 = %.3g" % (b, qn - 1)):
@@ -520,43 +788,85 @@ class ICPSub(Sub):
             tol = 64 * eps * L * L
             exc = after - before * (1 + 1e-9)
             rec.notes["r_mono"] = max(rec.notes.get("r_mono", 0), exc / tol)
+            if noise > 0 and after > 100 * tol:
+                rec.label("monotone_at_nonzero_optimum")
             rec.check(exc <= tol, "icp:monotone:%s:%s" % (dtype, "planar" if case["planar"] else "volume"),
-                      lambda: "ICP item %d (N=%d, init=%s, level %d, %s): mean squared closest-point distance %.6g after "
-                              "> %.6g before (+tol %.3g)" % (b, N, case["init"], lev, case["stepper"], after, before, tol))
+                      lambda: "ICP item %d (N=%d, init=%s, level %d, %s, noise %.3g cell, batch %s %s): mean squared closest-point "
+                              "distance %.6g after > %.6g before (+tol %.3g)"
+                              % (b, N, case["init"], lev, case["stepper"], noise, bshape, bc, after, before, tol))
             # first matching = true correspondence?  x_{perm[j]} <-> Y[j]
             inv = np.empty(len(perm), dtype=int); inv[perm] = np.arange(len(perm))
             inv = inv[:N]
             dtrue = D2[np.arange(N), inv]
             D2o = D2.copy(); D2o[np.arange(N), inv] = np.inf
             unique = bool(np.all(dtrue <= 0.64 * D2o.min(-1)))
-            if unique:
+            eR = float(np.abs(R_ret - R_true).max())
+            et = float(np.abs(t_ret - t_true).max()) / (1 + L)
+            if unique and noise == 0:
                 rec.label("matched_at_start", "matched:level%d" % lev)
-                eR = float(np.abs(R_ret - R_true).max())
-                et = float(np.abs(t_ret - t_true).max()) / (1 + L)
-                lim = 1e-6 if dtype == "float64" else 2e-4
+                lim, cond = self._recover_limit(X, L, N, dtype, case["stepper"])
                 rec.notes["r_recover:" + dtype] = max(rec.notes.get("r_recover:" + dtype, 0), max(eR, et) / lim)
+                rec.notes["recover_err/(eps cond)"] = max(rec.notes.get("recover_err/(eps cond)", 0), max(eR, et) / (eps * cond))
+                rec.notes["recover_cond"] = max(rec.notes.get("recover_cond", 0), cond)
+                rec.notes["recover_limit:" + dtype] = max(rec.notes.get("recover_limit:" + dtype, 0), lim)
                 rec.check(max(eR, et) <= lim, "icp:recover:%s:%s" % (dtype, "planar" if case["planar"] else "volume"),
-                          lambda: "ICP item %d (N=%d, init=%s, level %d, %s, %s): initial nearest neighbours are the true "
-                                  "correspondences but the exact transform is not recovered: |dR|=%.3g |dt|/(1+L)=%.3g; "
+                          lambda: "ICP item %d (N=%d, init=%s, level %d, %s, %s, batch %s %s): initial nearest neighbours are the true "
+                                  "correspondences but the exact transform is not recovered: |dR|=%.3g |dt|/(1+L)=%.3g (limit %.3g); "
                                   "returned %s" % (b, N, case["init"], lev, case["stepper"],
-                                                   "planar" if case["planar"] else "volume", eR, et, Tn[b].tolist()))
-            else:
+                                                   "planar" if case["planar"] else "volume", bshape, bc, eR, et, lim, Tn[b].tolist()))
+            elif noise == 0:
                 rec.label("not_matched_at_start")
-                eR = float(np.abs(R_ret - R_true).max())
                 rec.label("unmatched_recovered" if eR < 1e-3 else "unmatched_not_recovered")
-            if not zeroD and (case["planar"] or case["perm"] or case["init"] != "none" or lev > 1):
+            else:
+                rec.label("noisy_matched_at_start" if unique else "noisy_not_matched_at_start")
+            if not zeroD and (case["planar"] or case["perm"] or case["init"] != "none" or lev > 1 or noise > 0):
                 rec.nt(("icp", dtype, case["planar"], case["perm"], case["init"], lev, case["stepper"], _nbucket(N),
-                        unique, nb, _abucket(R.rot_angle(R_true)), case["extra"] > 0))
+                        unique, bshape, bc, bool(case.get("init_shared")), nlev, _abucket(R.rot_angle(R_true)), case["extra"] > 0))
+
+    @staticmethod
+    def _recover_limit(X, L, N, dtype, stepper):
+        """limit for max(|R - R_true|, |t - t_true|/(1+L)) when the first matching is the true correspondence.
+        The first SVD step is then already exact and every later step re-fits the same pairs, so the result does not
+        depend on the stepper's stopping tolerance; what is left is rounding: the target is stored rounded, each of the
+        k <= k_max loop steps moves the cloud by a quaternion action (<= ~4 eps L per point and step) and the final
+        svdtf(source, moved cloud) adds a few more: per-point noise <= (4 k_max + 16) eps L.  The rotation of an SVD fit moves
+        by at most 2 |dM|_F / (sig2 + sig3), |dM|_F <= noise * sum|x_c,i|  ->  |dR| <= 2 (4 k_max + 16) eps cond, cond =
+        L sum|x_c,i| / (sig2 + sig3) >= 1 (sig = scatter eigenvalues of the source), and |dt| <= |dR| L + noise.
+        Limit = 3 (4 k_max + 16) eps cond; observed worst case 9 eps cond (thorough tier, 12000 cases).  For N >= 20 never
+        above the former constants 1e-6 / 2e-4."""
+        kmax = {"default": 200, "tight": 100, "short": 3}[stepper]
+        stt = A.scatter_stats(X)
+        Xc = X - X.mean(0)
+        w2 = float(stt["sig"][1] + stt["sig"][2])
+        cond = L * float(np.sqrt((Xc * Xc).sum(-1)).sum()) / w2 if w2 > 0 else float("inf")
+        lim = 3.0 * (4 * kmax + 16) * tu.EPS[dtype] * cond
+        if N >= 20:
+            lim = min(lim, 1e-6 if dtype == "float64" else 2e-4)
+        return lim, cond
 
     def simplify(self, case):
-        if case["nb"] > 0:
-            yield dict(case, nb=0)
-        if case["N"] > 20:
-            for n in sorted({20, case["N"] // 2, case["N"] - 1}):
-                if 20 <= n < case["N"]:
+        bshape = _bshape(case)
+        if bshape:
+            base = {k: v for k, v in case.items() if k not in ("nb", "bshape", "bc", "keep1", "items", "init_shared")}
+            yield dict(base, bshape=[], bc="same", keep1=False, items=[], init_shared=False)
+            if case.get("bc", "same") == "same":
+                for i, it in enumerate(case.get("items", [])):       # batch item i+1 alone (its cloud seed is seed + 1013 (i+1))
+                    yield dict(base, bshape=[], bc="same", keep1=False, items=[], init_shared=False,
+                               seed=case["seed"] + 1013 * (i + 1), **{k: it[k] for k in ICP_ITEM_KEYS})
+            if case.get("keep1"):
+                yield dict(case, keep1=False)
+            if case.get("init_shared"):
+                yield dict(case, init_shared=False)
+        if case["N"] > 3:
+            for n in sorted({3, 20, case["N"] // 2, case["N"] - 1}):
+                if 3 <= n < case["N"]:
                     yield dict(case, N=n)
         if case["dtype"] == "float32":
             yield dict(case, dtype="float64")
+        if case.get("noise", 0.0) > 0:
+            yield dict(case, noise=0.0)
+        if case.get("reuse"):
+            yield dict(case, reuse=False)
         if case["perm"]:
             yield dict(case, perm=False)
         if case["extra"]:
@@ -576,152 +886,239 @@ class ICPSub(Sub):
                 yield dict(case, seed=sd)
 
     def size(self, case):
-        return case["N"] * 50 * max(1, case["nb"]) + len(repr(case))
+        return case["N"] * 50 * _prod(_bshape(case)) + len(repr(case))
 
 
 # =====================================================================================
 # epnp
+EPNP_ITEM_KEYS = ("q", "rho", "lat", "fmul")
+EPNP_SHAPES = {
+    "quick": ([],) * 5 + ([2],) * 3 + ([3],) + ([2, 2],) + ([1, 2],),
+    "thorough": ([],) * 4 + ([1],) + ([2],) * 3 + ([3],) + ([2, 2],) + ([2, 3],) + ([1, 2],) + ([3, 1],),
+}
+# float32: the same error model as float64 (measured over 2e4 cases per dtype: pose error <= 15 eps kappa^2, reprojection
+# <= 9 eps kappa^2 f in BOTH precisions), asserted with a ~10 x margin and only while that tolerance still means something
+# (kappa <= EPNP_F32_KAPPA: pose tolerance <= 0.07)
+EPNP_F32_KAPPA = 60.0
+
+
 class EPnPSub(Sub):
     name = "epnp"
     n = {"quick": 640, "thorough": 12000}
 
     def strategy(self, tier):
         @st.composite
-        def s(draw):
+        def pose(draw):
             q, _ = draw(gen.unit_quat("float64"))
-            return {"N": draw(st.one_of(st.integers(6, 8), st.integers(6, 30), st.integers(6, 100))),
-                    "nb": draw(st.sampled_from((0, 0, 2))), "seed": draw(st.integers(0, 2 ** 31 - 1)),
-                    "size": 10.0 ** draw(st.floats(-1.0, 1.0)), "an": [draw(st.floats(0.25, 1.0)) for _ in range(3)],
-                    "cmul": draw(st.sampled_from((0.0, 1.0, 5.0))), "q": q,
-                    "rho": draw(st.one_of(st.floats(1.1, 4.0), st.floats(1.1, 16.0))),
+            return {"q": q, "rho": draw(st.one_of(st.floats(1.1, 4.0), st.floats(1.1, 16.0))),
                     "lat": [draw(st.floats(-0.4, 0.4)) for _ in range(2)],
+                    # per-item focal length factor (used when the intrinsics are batched)
+                    "fmul": draw(st.sampled_from((1.0, 0.5, 2.0)))}
+
+        @st.composite
+        def s(draw):
+            bshape = list(draw(st.sampled_from(EPNP_SHAPES[tier])))
+            N = draw(st.one_of(st.integers(6, 8), st.integers(6, 30), st.integers(6, 100)))
+            if tier == "quick" and _prod(bshape) > 2:
+                N = min(N, 40)
+            case = {"N": N, "bshape": bshape, "seed": draw(st.integers(0, 2 ** 31 - 1)),
+                    "dtype": draw(st.sampled_from(("float64", "float64", "float64", "float32"))),
+                    "size": 10.0 ** draw(st.floats(-1.0, 1.0)), "an": [draw(st.floats(0.25, 1.0)) for _ in range(3)],
+                    "cmul": draw(st.sampled_from((0.0, 1.0, 5.0))),
                     "fx": 10.0 ** draw(st.floats(0.0, 3.3)), "fyr": draw(st.one_of(st.just(1.0), st.floats(0.8, 1.25))),
                     "pp": [draw(st.floats(-500.0, 1000.0)) for _ in range(2)],
                     "refine": draw(st.booleans()), "via": draw(st.sampled_from(("ctor", "fwd"))), "reuse": draw(st.sampled_from((False, False, True))),
-                    "kbatch": draw(st.booleans())}
+                    "kbatch": draw(st.booleans()),
+                    # False: the scene may come closer to the camera than one length unit (all depths stay > 0)
+                    "dclamp": draw(st.sampled_from((False, False, True))),
+                    # "pts_shared": ONE point set (no batch dimensions) seen by a batch of cameras
+                    "bc": draw(st.sampled_from(("same",) * 7 + ("pts_shared",))) if bshape else "same"}
+            case.update(draw(pose()))
+            case["items"] = [draw(pose()) for _ in range(_prod(bshape) - 1)]
+            return case
         return s()
 
     def valid(self, case):
         try:
-            return (case["N"] >= 6 and np.linalg.norm(case["q"]) > 1e-3 and 0.25 <= min(case["an"]) and max(case["an"]) <= 1
-                    and 1.1 <= case["rho"] <= 16 and max(abs(v) for v in case["lat"]) <= 0.4 and 1 <= case["fx"] <= 2000
-                    and 0.8 <= case["fyr"] <= 1.25 and 0.1 <= case["size"] <= 10 and 0 <= case["cmul"] <= 5
-                    and all(-500 <= v <= 1000 for v in case["pp"]))
+            bshape = _bshape(case)
+            ok = (case["N"] >= 6 and 0.25 <= min(case["an"]) and max(case["an"]) <= 1
+                  and 1 <= case["fx"] <= 2000
+                  and 0.8 <= case["fyr"] <= 1.25 and 0.1 <= case["size"] <= 10 and 0 <= case["cmul"] <= 5
+                  and all(-500 <= v <= 1000 for v in case["pp"]) and case.get("dtype", "float64") in tu.EPS
+                  and len(bshape) <= 2 and min(bshape + (1,)) >= 1 and len(case.get("items", [])) in (0, _prod(bshape) - 1)
+                  and case.get("bc", "same") in ("same", "pts_shared") and (case.get("bc", "same") == "same" or bshape))
+            for p in [case] + list(case.get("items", [])):
+                ok = ok and (np.linalg.norm(p["q"]) > 1e-3 and 1.1 <= p["rho"] <= 16 and max(abs(v) for v in p["lat"]) <= 0.4
+                             and p.get("fmul", 1.0) in (1.0, 0.5, 2.0))
+            return bool(ok)
         except Exception:
             return False
 
     def _problem(self, case, b):
+        """-> world points P (rounded to the dtype), R_true, t_true, depth/size ratio, focal factor.  Batch item b > 0
+        takes pose, distance and lateral offset from case["items"][b-1] (older cases: shared with item 0)."""
         N = case["N"]
-        rs = np.random.RandomState((case["seed"] + 7 * b) % (2 ** 31))
+        p = case if (b == 0 or not case.get("items")) else dict(case, **case["items"][b - 1])
+        shared = case.get("bc", "same") == "pts_shared"
+        rs = np.random.RandomState((case["seed"] + (0 if shared else 7 * b)) % (2 ** 31))
         P = rs.randn(N, 3) * np.asarray(case["an"])
         P = P @ _rand_rot(rs).T
         # guarantee spread in all three directions whatever the draw: add the 6 corners of an octahedron to the first points
         oct6 = np.array([[1, 0, 0], [-1, 0, 0], [0, 1, 0], [0, -1, 0], [0, 0, 1], [0, 0, -1]], dtype=np.float64) * min(case["an"])
         P[:6] = 0.5 * P[:6] + oct6
-        P = (P + _unit(rs.randn(3)) * case["cmul"]) * case["size"]
-        Rt = _qR(case["q"])
+        P = _cast((P + _unit(rs.randn(3)) * case["cmul"]) * case["size"], case.get("dtype", "float64"))
+        Rt = _qR(p["q"])
         Pc0 = (P - P.mean(0)) @ Rt.T
         rmax = float(np.linalg.norm(Pc0, axis=1).max())
-        cz = max(case["rho"] * rmax, 1.0 - float(Pc0[:, 2].min()) + 1e-3)
-        c = np.array([case["lat"][0] * cz, case["lat"][1] * cz, cz])
+        cz = p["rho"] * rmax                                   # every depth >= (rho - 1) rmax > 0
+        if case.get("dclamp", True):
+            cz = max(cz, 1.0 - float(Pc0[:, 2].min()) + 1e-3)  # ... and >= 1 length unit
+        c = np.array([p["lat"][0] * cz, p["lat"][1] * cz, cz])
         t = c - Rt @ P.mean(0)
-        return P, Rt, t, cz / rmax
+        return P, Rt, t, cz / rmax, (p.get("fmul", 1.0) if case.get("kbatch") else 1.0)
 
     def oracle(self, case, rec):
-        N, nb = case["N"], case["nb"]
-        fx = case["fx"]; fy = fx * case["fyr"]; cx, cy = case["pp"]
-        f = max(fx, fy)
-        probs = [self._problem(case, b) for b in range(max(1, nb))]
-        pix = []
-        for P, Rt, t, rho in probs:
-            uv, z = A.project(P, Rt, t, fx, fy, cx, cy)
-            if z.min() < 1.0 - 1e-9:
-                raise AssertionError("harness: depth %r < 1" % z.min())
-            pix.append(uv)
-        Ps = np.stack([p[0] for p in probs], 0)
-        UV = np.stack(pix, 0)
-        K = np.array([[fx, 0, cx], [0, fy, cy], [0, 0, 1.0]])
-        pts = tu.tens(Ps if nb else Ps[0], "float64")
-        pxl = tu.tens(UV if nb else UV[0], "float64")
-        Kt = tu.tens(np.stack([K] * nb, 0) if (nb and case["kbatch"]) else K, "float64")
+        N, dtype = case["N"], case.get("dtype", "float64")
+        bshape, bc = _bshape(case), case.get("bc", "same")
+        nitems = _prod(bshape)
+        eps = tu.EPS[dtype]
+        probs = [self._problem(case, b) for b in range(nitems)]
+        # intrinsics (rounded to the dtype; per item when batched), pixels from the harness's own projection
+        Ks, pix, fs = [], [], []
+        for P, Rt, t, rho, fmul in probs:
+            K = _cast(np.array([[case["fx"] * fmul, 0, case["pp"][0]], [0, case["fx"] * fmul * case["fyr"], case["pp"][1]],
+                                [0, 0, 1.0]]), dtype)
+            uv, z = A.project(P, Rt, t, K[0, 0], K[1, 1], K[0, 2], K[1, 2])
+            if not z.min() > 0:
+                raise AssertionError("harness: depth %r <= 0" % z.min())
+            Ks.append(K); pix.append(uv); fs.append(max(K[0, 0], K[1, 1]))
+        Ps = np.stack([p[0] for p in probs], 0).reshape(bshape + (N, 3))
+        if bc == "pts_shared":
+            Ps = probs[0][0]
+        UV = np.stack(pix, 0).reshape(bshape + (N, 2))
+        pts = tu.tens(Ps, dtype)
+        pxl = tu.tens(UV, dtype)
+        UVr = tu.npy(pxl).reshape(nitems, N, 2)                 # the pixels EPnP sees (rounded to the dtype)
+        Kt = tu.tens(np.stack(Ks, 0).reshape(bshape + (3, 3)) if (bshape and case["kbatch"]) else Ks[0], dtype)
         pts0, pxl0 = pts.clone(), pxl.clone()
-        # consistency of the harness projection with pypose's camera model (property C18 covers point2pixel itself)
-        pose_true = np.stack([np.concatenate([p[2], _q_of_R(p[1])]) for p in probs], 0)
+        # consistency of the harness projection with pypose's camera model (property C18 covers point2pixel itself); float64
+        pose_true = np.stack([np.concatenate([p[2], _q_of_R(p[1])]) for p in probs], 0).reshape(bshape + (7,))
         with rec.sut("point2pixel"):
-            uv_pp = tu.npy(pp.point2pixel(pts, Kt, pp.SE3(tu.tens(pose_true if nb else pose_true[0], "float64"))))
-        dev = float(np.abs(uv_pp.reshape(UV.shape) - UV).max()) / f
+            uv_pp = tu.npy(pp.point2pixel(pts.double(), Kt.double(), pp.SE3(tu.tens(pose_true, "float64"))))
+        dev = float((np.abs(uv_pp.reshape(nitems, N, 2) - np.stack(pix, 0)).max(-1).max(-1) / np.asarray(fs)).max())
         rec.notes["r_p2p"] = max(rec.notes.get("r_p2p", 0), dev / 1e-9)
         if not rec.check(dev <= 1e-9, "epnp:point2pixel_consistency",
                          "pp.point2pixel differs from u = fx X/Z + cx by %.3g f" % dev):
             return
-        with rec.sut("EPnP"):
-            solver = pp.module.EPnP(Kt, refine=case["refine"]) if case["via"] == "ctor" else pp.module.EPnP(refine=case["refine"])
-            if case.get("reuse"):
-                # an earlier call of the same module with OTHER per-call intrinsics (result discarded): nothing may leak
-                K2 = Kt.clone()
-                K2[..., 0, 0] = K2[..., 0, 0] * 1.7
-                K2[..., 1, 1] = K2[..., 1, 1] * 0.6
-                K2[..., 0, 2] = K2[..., 0, 2] + 11.0
-                solver(pts, pp.point2pixel(pts, K2, pp.SE3(tu.tens(pose_true if nb else pose_true[0], "float64"))), K2)
-                rec.label("reused_module")
-            T = solver(pts, pxl) if case["via"] == "ctor" else solver(pts, pxl, Kt)
+        sbatch = "batch" + str(bshape).replace(" ", "")
+        try:
+            with rec.sut("EPnP", allow=(RuntimeError,) if bc == "pts_shared" else ()):
+                solver = pp.module.EPnP(Kt, refine=case["refine"]) if case["via"] == "ctor" else pp.module.EPnP(refine=case["refine"])
+                if case.get("reuse"):
+                    # an earlier call of the same module with OTHER per-call intrinsics (result discarded): nothing may leak
+                    K2 = Kt.clone()
+                    K2[..., 0, 0] = K2[..., 0, 0] * 1.7
+                    K2[..., 1, 1] = K2[..., 1, 1] * 0.6
+                    K2[..., 0, 2] = K2[..., 0, 2] + 11.0
+                    solver(pts, pp.point2pixel(pts, K2, pp.SE3(tu.tens(pose_true, dtype))), K2)
+                    rec.label("reused_module")
+                T = solver(pts, pxl) if case["via"] == "ctor" else solver(pts, pxl, Kt)
+        except RuntimeError as e:
+            if "stack expects each tensor to be equal size" in str(e) and not (tuple(pts.shape[:-2]) == tuple(pxl.shape[:-2]) == tuple(Kt.shape[:-2])):
+                rec.label("epnp:broadcast_refused(loud)", sbatch)     # see ASSUMPTIONS: undocumented broadcast, loud refusal
+                return
+            rec.fail("epnp:raises:RuntimeError:pts_shared", "EPnP raised RuntimeError for points %s, pixels %s, intrinsics %s: %s"
+                     % (tuple(pts.shape), tuple(pxl.shape), tuple(Kt.shape), str(e)[:300]))
+            return
         rec.check(torch.equal(pts, pts0) and torch.equal(pxl, pxl0), "epnp:mutates_input", "EPnP changed its inputs")
         if not rec.check(isinstance(T, pp.LieTensor) and T.ltype == pp.SE3_type, "epnp:type",
                          "EPnP returned %s / %s" % (type(T).__name__, getattr(T, "ltype", None))):
             return
-        shape = ((nb,) if nb else ()) + (7,)
+        shape = bshape + (7,)
         if not rec.check(tuple(T.shape) == shape, "epnp:shape", "EPnP result shape %s, expected %s" % (tuple(T.shape), shape)):
             return
-        Tn = tu.npy(T).reshape(max(1, nb), 7)
+        rec.check(T.dtype == tu.TD[dtype], "epnp:dtype", "EPnP: result dtype %s for %s inputs" % (T.dtype, dtype))
+        Tn = tu.npy(T).reshape(nitems, 7)
         if not rec.check(bool(np.all(np.isfinite(Tn))), "epnp:nonfinite", "EPnP returned %s" % Tn.tolist()):
             return
-        ang = _angle(case["q"])
         aniso = min(case["an"]) / max(case["an"])
-        rec.label("refine" if case["refine"] else "norefine", "via:" + case["via"], "batch%d" % nb,
+        rec.label("refine" if case["refine"] else "norefine", "via:" + case["via"], sbatch, "rank%d" % len(bshape), dtype,
                   "N<=8" if N <= 8 else ("N<=30" if N <= 30 else "N>30"))
-        tagr = "refine" if case["refine"] else "norefine"
-        for b, (P, Rt, t, rho) in enumerate(probs):
+        if nitems > 1 and case.get("items"):
+            rec.label("per_item_pose")
+        if bshape and case["kbatch"]:
+            rec.label("per_item_intrinsics")
+        if bc != "same":
+            rec.label("bc:" + bc)
+        tagr = ("refine" if case["refine"] else "norefine") + ("" if dtype == "float64" else ":" + dtype)
+        for b, (P, Rt, t, rho, fmul) in enumerate(probs):
+            pb = case if (b == 0 or not case.get("items")) else case["items"][b - 1]
+            ang = _angle(pb["q"])
+            K = Ks[b] if (bshape and case["kbatch"]) else Ks[0]
+            fx, fy, cx, cy = K[0, 0], K[1, 1], K[0, 2], K[1, 2]
+            f = max(fx, fy)
             t_ret, q_ret = Tn[b, :3], Tn[b, 3:]
             qn = float(np.linalg.norm(q_ret))
-            if not rec.check(abs(qn - 1) <= 16 * tu.EPS["float64"], "epnp:unit_quat", "EPnP item %d: |q| - 1 = %.3g" % (b, qn - 1)):
+            if not rec.check(abs(qn - 1) <= 16 * eps, "epnp:unit_quat", "EPnP item %d: |q| - 1 = %.3g" % (b, qn - 1)):
                 continue
             R_ret = _qR(q_ret)
             uv2, z2 = A.project(P, R_ret, t_ret, fx, fy, cx, cy)
-            rep = float(np.abs(uv2 - pix[b]).max()) / f if np.all(np.isfinite(uv2)) else float("inf")
+            rep = float(np.abs(uv2 - UVr[b]).max()) / f if np.all(np.isfinite(uv2)) else float("inf")
             eR = float(np.abs(R_ret - Rt).max())
             et = float(np.abs(t_ret - t).max()) / (1 + float(np.abs(t).max()))
+            zmin = float((P @ Rt.T + t)[:, 2].min())
             # EPnP takes the null vector from eig(M^T M): its error grows with the SQUARE of the conditioning of the
             # resection problem (measured over 4e4 six-point cases: pose error <= 30 eps kappa^2, reprojection error
             # <= 3 eps kappa^2 f).  The design tolerances are kept up to kappa = 1000 (~95 % of the generated cases);
             # beyond that they grow with (kappa/1000)^2.
-            uvn = (pix[b] - np.array([cx, cy])) / np.array([fx, fy])
+            uvn = (UVr[b] - np.array([cx, cy])) / np.array([fx, fy])
             kap = A.dlt_condition(P, uvn)
-            F = max(1.0, (kap / 1000.0) ** 2)
-            tol_rep, tol_pose = 1e-8 * F, 1e-6 * F
-            rec.notes["r_reproj"] = max(rec.notes.get("r_reproj", 0), rep / tol_rep)
-            rec.notes["r_pose"] = max(rec.notes.get("r_pose", 0), max(eR, et) / tol_pose)
-            rec.notes["kappa"] = max(rec.notes.get("kappa", 0), kap)
             rec.label("rho<=4" if rho <= 4 else ("rho<=8" if rho <= 8 else "rho>8"),
-                      "kappa<=1000" if kap <= 1000 else ("kappa<=3000" if kap <= 3000 else "kappa>3000"))
-            msg = lambda: ("EPnP item %d (N=%d, %s, rho=%.2f, kappa=%.3g, angle=%.3f, f=%.4g): reprojection error %.3g f "
-                           "(tol %.3g), |dR|=%.3g, |dt|/(1+|t|)=%.3g (tol %.3g); returned %s, true t=%s R=%s"
-                           % (b, N, tagr, rho, kap, ang, f, rep, tol_rep, eR, et, tol_pose, Tn[b].tolist(), t.tolist(),
+                      "kappa<=1000" if kap <= 1000 else ("kappa<=3000" if kap <= 3000 else "kappa>3000"),
+                      "min_depth<1" if zmin < 1 else "min_depth>=1")
+            if dtype == "float64":
+                F = max(1.0, (kap / 1000.0) ** 2)
+                tol_rep, tol_pose = 1e-8 * F, 1e-6 * F
+            else:
+                if kap > EPNP_F32_KAPPA:
+                    rec.label("float32:kappa>%d_not_asserted" % EPNP_F32_KAPPA)
+                    continue
+                rec.label("float32:asserted")
+                # pixels rounded to float32 are a perturbation eps |u| / f of the normalised image point: first-order effect kappa x that
+                pr = eps * (1.0 + float(np.abs(UVr[b]).max()) / f)
+                tol_rep, tol_pose = 80 * eps * kap ** 2 + 16 * pr, 160 * eps * kap ** 2 + 16 * kap * pr
+            rec.notes["r_reproj:" + dtype] = max(rec.notes.get("r_reproj:" + dtype, 0), rep / tol_rep)
+            rec.notes["r_pose:" + dtype] = max(rec.notes.get("r_pose:" + dtype, 0), max(eR, et) / tol_pose)
+            rec.notes["kappa"] = max(rec.notes.get("kappa", 0), kap)
+            msg = lambda: ("EPnP item %d (N=%d, %s, batch %s, rho=%.2f, min depth %.3g, kappa=%.3g, angle=%.3f, f=%.4g): reprojection error "
+                           "%.3g f (tol %.3g), |dR|=%.3g, |dt|/(1+|t|)=%.3g (tol %.3g); returned %s, true t=%s R=%s"
+                           % (b, N, tagr, bshape, rho, zmin, kap, ang, f, rep, tol_rep, eR, et, tol_pose, Tn[b].tolist(), t.tolist(),
                               Rt.tolist()))
             rec.check(rep <= tol_rep, "epnp:reprojection:" + tagr, msg)
             rec.check(max(eR, et) <= tol_pose, "epnp:pose:" + tagr, msg)
             if kap <= 3000 and (ang > 2.0 or N <= 8 or rho > 8 or aniso < 0.4):
-                rec.nt(("epnp", case["refine"], case["via"], nb, _nbucket(N), int(rho), _abucket(ang), int(aniso * 5),
-                        int(math.log10(fx) * 2)))
+                rec.nt(("epnp", case["refine"], case["via"], bshape, dtype, _nbucket(N), int(rho), _abucket(ang), int(aniso * 5),
+                        int(math.log10(case["fx"]) * 2), zmin < 1))
 
     def simplify(self, case):
-        if case["nb"] > 0:
-            yield dict(case, nb=0)
+        bshape = _bshape(case)
+        if bshape:
+            base = {k: v for k, v in case.items() if k not in ("nb", "bshape", "items", "bc")}
+            yield dict(base, bshape=[], items=[], bc="same")
+            if case.get("bc", "same") == "same":
+                for i, it in enumerate(case.get("items", [])):       # batch item i+1 alone (its cloud seed is seed + 7 (i+1))
+                    yield dict(base, bshape=[], items=[], bc="same", seed=case["seed"] + 7 * (i + 1),
+                               **{k: it[k] for k in EPNP_ITEM_KEYS if k in it and k != "fmul"})
         if case["N"] > 6:
             for n in sorted({6, case["N"] // 2, case["N"] - 1}):
                 if 6 <= n < case["N"]:
                     yield dict(case, N=n)
+        if case.get("dtype", "float64") == "float32":
+            yield dict(case, dtype="float64")
         if case["refine"]:
             yield dict(case, refine=False)
+        if case.get("reuse"):
+            yield dict(case, reuse=False)
         if case["q"] != QI:
             yield dict(case, q=list(QI))
         if case["an"] != [1.0, 1.0, 1.0]:
@@ -739,7 +1136,7 @@ class EPnPSub(Sub):
                 yield dict(case, seed=sd)
 
     def size(self, case):
-        return case["N"] * 50 * max(1, case["nb"]) + len(repr(case))
+        return case["N"] * 50 * _prod(_bshape(case)) + len(repr(case))
 
 
 SUBS = [Align(), ICPSub(), EPnPSub()]
@@ -772,13 +1169,37 @@ def selftest():
                 sr = a["s"] * (1 + (1e-3 * rs.randn() if mode == "sim" else 0.0))
                 tr = Y.mean(0) - sr * Rr @ X.mean(0)
                 assert A.sse(X, Y, sr, Rr, tr) >= a["sse"] - 1e-11 * scale
+    # centred SSE = plain SSE; l1 - l2 = 2 (sigma_2 + d sigma_3); the tolerance terms are finite and positive
+    for trial in range(30):
+        N = int(rs.randint(3, 40))
+        X = rs.randn(N, 3) + rs.randn(3)
+        Rt = _rand_rot(rs)
+        Y = 1.7 * X @ Rt.T + rs.randn(3) + (0.3 if trial % 2 else 3.0) * rs.randn(N, 3)
+        sr, Rr, tr = float(np.exp(rs.randn())), _rand_rot(rs), rs.randn(3)
+        a1, a2 = A.sse(X, Y, sr, Rr, tr), A.sse_centred(X, Y, sr, Rr, tr)
+        assert abs(a1 - a2) <= 1e-12 * a1, (a1, a2)
+        for mode in ("rigid", "sim"):
+            a, k = A.optimum(X, Y, mode), A.kabsch_umeyama(X, Y, mode)
+            assert abs(a["sse_c"] - a["sse"]) <= 1e-12 * a["sse"]
+            d3 = -1.0 if k["refl"] else 1.0
+            assert abs((a["l1"] - a["l2"]) - 2 * (k["sv"][1] + d3 * k["sv"][2])) <= 1e-10 * k["sv"][0], (a["l1"], a["l2"], k["sv"])
+            tol, terms = opt_tolerance(X, Y, a, mode, tu.EPS["float32"])
+            assert 0 < tol < 1e-3 * a["sse_c"], (tol, a["sse_c"])
+            # a rotation error of 0.02 rad about the centroid costs more than the float32 tolerance, also 1000 units from the origin
+            off = np.array([1000.0, 0.0, 0.0])
+            a_far = A.optimum(X + off, Y + off, mode)
+            tol_far, _ = opt_tolerance(X + off, Y + off, a_far, mode, tu.EPS["float32"])
+            Rw = a_far["R"] @ A.rot_from_axis_angle(rs.randn(3), 0.02)
+            tw = (Y + off).mean(0) - a_far["s"] * Rw @ (X + off).mean(0)
+            if (a_far["l1"] - a_far["l2"]) > 0.2 * a_far["l1"]:
+                assert A.sse_centred(X + off, Y + off, a_far["s"], Rw, tw) - a_far["sse_c"] > tol_far, (mode, tol_far)
     # quaternion extraction / composition helpers
     for _ in range(20):
         Rm = _rand_rot(rs)
         assert np.allclose(_qR(_q_of_R(Rm)), Rm, atol=1e-13)
     # grid clouds are well separated
     for planar in (False, True):
-        for N in (20, 57, 200):
+        for N in (3, 7, 20, 57, 200):
             P, g = grid_cloud(N, 3, planar, 2.0)
             d2 = ((P[:, None] - P[None]) ** 2).sum(-1) + np.eye(N) * 1e9
             assert math.sqrt(d2.min()) >= 2.0 * 0.5 / g - 1e-12
